@@ -1,0 +1,59 @@
+//go:build verif
+
+// White-box access for the /verif C04 check (persist-before-send, crash
+// recovery). Compiled only with -tags verif. Add-only: nothing here is
+// referenced by the regular build.
+
+package dragonboat
+
+import (
+	"github.com/lni/dragonboat/v4/internal/transport"
+	pb "github.com/lni/dragonboat/v4/raftpb"
+)
+
+// verifC04Transport sits between NodeHost.sendMessage and the real transport
+// hub: it sees every message at the instant node.sendRaftMessage hands it over
+// (synchronously, on the step worker goroutine).
+type verifC04Transport struct {
+	transport.ITransport
+	f func(m pb.Message, snapshot bool) bool
+}
+
+func (t *verifC04Transport) Send(m pb.Message) bool {
+	if !t.f(m, false) {
+		return false
+	}
+	return t.ITransport.Send(m)
+}
+
+func (t *verifC04Transport) SendSnapshot(m pb.Message) bool {
+	if !t.f(m, true) {
+		return false
+	}
+	return t.ITransport.SendSnapshot(m)
+}
+
+// VerifC04WrapTransport installs f in front of nh.transport. It must be called
+// right after NewNodeHost, before any replica is started. f returns false to
+// drop the message (used to silence a host after its simulated crash instant).
+func VerifC04WrapTransport(nh *NodeHost, f func(m pb.Message, snapshot bool) bool) {
+	nh.transport = &verifC04Transport{ITransport: nh.transport, f: f}
+}
+
+// VerifC04SendFilters runs the real node.sendReplicateMessages (what leaves
+// before SaveRaftState) and node.sendMessages (what leaves after it) on ud.
+func VerifC04SendFilters(ud pb.Update) (pre []pb.Message, post []pb.Message) {
+	var cur *[]pb.Message
+	n := &node{shardID: ud.ShardID}
+	n.sendRaftMessage = func(m pb.Message) { *cur = append(*cur, m) }
+	cur = &pre
+	n.sendReplicateMessages(ud)
+	cur = &post
+	n.sendMessages(ud.Messages)
+	return pre, post
+}
+
+// VerifC04IsFreeOrder is node.go's isFreeOrderMessage.
+func VerifC04IsFreeOrder(t pb.MessageType) bool {
+	return isFreeOrderMessage(pb.Message{Type: t})
+}
